@@ -11,6 +11,26 @@ from . import common as C
 from . import hist, impl, rx, stvalues
 
 
+def attr_history_independence(rep):
+    """a fresh element's reaction to an attribute value must not depend on what other instances did before (two processes)"""
+    outs = {}
+    for mode in ('pristine', 'after'):
+        r = subprocess.run([C.PY, '-W', 'ignore', os.path.join(C.VERIF, 'corr', 'c13_attr_runner.py'), mode], capture_output=True, text=True, env=C.impl_env(), timeout=1800)
+        if r.returncode != 0:
+            raise RuntimeError('c13_attr_runner failed: ' + r.stderr[-1500:])
+        outs[mode] = json.loads(r.stdout)
+    n = 0
+    for a, b in zip(outs['pristine'], outs['after']):
+        n += 1
+        if a != b:
+            rep.violation('%s: a fresh element reacts to %s=%s differently after another instance was given %s=%s (alone: %s, afterwards: %s)' % (
+                a[0], a[1], a[3], a[1], a[2], a[4:], b[4:]), {'class': a[0], 'attribute': a[1], 'earlier_value_on_another_instance': a[2], 'probe_value': a[3],
+                                                                'alone': a[4:], 'after_unrelated_history': b[4:]})
+            if len(rep.violations) > 6:
+                break
+    return n
+
+
 def run(rep):
     res = C.proof_obligations(rep, 'Properties/C13.v')
     g = json.load(open(os.path.join(C.BUILD, 'gen.json')))
@@ -119,6 +139,7 @@ def run(rep):
                 rep.violation('an element and its deep copy are not isolated: mutating one changes the other (<%s>): %s' % (rec['case']['root'], rec['aliasing'][:3]),
                               {'case': rec['case'], 'aliasing': rec['aliasing'], 'log': rec.get('log')})
     rep.coverage['deep_copy_pairs'] = n_dc
+    rep.coverage['attribute_probes_before_and_after_unrelated_history'] = attr_history_independence(rep)
     rep.coverage.update({'evaluations': len(multi) + 2 * len(cases) + 3 * len(pairs), 'distinct_nontrivial': n_inter + n_ord, 'traces_validated_against_impl': len(multi) + len(cases),
                          'interleaved_instances_compared': n_inter, 'histories_in_two_orders': n_ord, 'value_verdicts_in_three_orders': len(pairs),
                          'rule': 'histories of 2-3 live instances (same class with probability 1/2) randomly interleaved, each instance compared with its own history run alone; '
